@@ -13,6 +13,7 @@ import (
 	"github.com/ajitpratap0/GoSQLX/pkg/gosqlx"
 	"github.com/ajitpratap0/GoSQLX/pkg/linter"
 	"github.com/ajitpratap0/GoSQLX/pkg/linter/rules/keywords"
+	"github.com/ajitpratap0/GoSQLX/pkg/linter/rules/style"
 	"github.com/ajitpratap0/GoSQLX/pkg/linter/rules/whitespace"
 	"github.com/ajitpratap0/GoSQLX/pkg/models"
 	"github.com/ajitpratap0/GoSQLX/pkg/sql/ast"
@@ -146,6 +147,36 @@ func NewLinter() *linter.Linter {
 		whitespace.NewRedundantWhitespaceRule(),
 		keywords.NewKeywordCaseRule(keywords.CaseUpper),
 	)
+}
+
+// CLILinter mirrors the rule set of `gosqlx lint` (cmd/gosqlx/cmd/lint.go createLinter).
+func CLILinter() *linter.Linter {
+	return linter.New(
+		whitespace.NewTrailingWhitespaceRule(),
+		whitespace.NewMixedIndentationRule(),
+		whitespace.NewConsecutiveBlankLinesRule(1),
+		whitespace.NewIndentationDepthRule(4, 4),
+		whitespace.NewLongLinesRule(100),
+		whitespace.NewRedundantWhitespaceRule(),
+		style.NewColumnAlignmentRule(),
+		style.NewCommaPlacementRule(style.CommaTrailing),
+		style.NewAliasingConsistencyRule(true),
+		keywords.NewKeywordCaseRule(keywords.CaseUpper),
+	)
+}
+
+// LintCounts returns the number of error- and warning-level findings of the CLI rule set.
+func LintCounts(sql string) (errs, warns int) {
+	r := CLILinter().LintString(sql, "x.sql")
+	for _, v := range r.Violations {
+		switch v.Severity {
+		case linter.SeverityError:
+			errs++
+		case linter.SeverityWarning:
+			warns++
+		}
+	}
+	return
 }
 
 func Lint(sql string) string {
